@@ -36,22 +36,21 @@ def _sum_by_group_sorted(indices, *values):
     # make indices unique for output
     indices = indices[index]
 
+    # first position of every group (index marks the last one)
+    starts = np.flatnonzero(np.append(True, index[:-1]))[:len(index)]
+
     val = list(values)
     for i, _ in enumerate(val):
-        # sum up values, chose only those with unique indices and then subtract the previous sums
-        # --> this way for each index the sum of all values belonging to this index is returned
+        # sum the values of every group directly (differences of a running cumsum lose precision
+        # when one group is many orders of magnitude larger than the others)
         nans = np.isnan(val[i])
         if np.any(nans):
             np.nan_to_num(val[i], copy=False)
-            np.cumsum(val[i], out=val[i])
-            val[i] = val[i][index]
             still_na = nans[index]
-            val[i][1:] = val[i][1:] - val[i][:-1]
+            val[i] = np.add.reduceat(val[i], starts)
             val[i][still_na] = np.nan
         else:
-            np.cumsum(val[i], out=val[i])
-            val[i] = val[i][index]
-            val[i][1:] = val[i][1:] - val[i][:-1]
+            val[i] = np.add.reduceat(val[i], starts)
     return [indices] + val
 
 
